@@ -270,6 +270,20 @@ def run_seq(ctx, segs, full):
                 continue  # empty reference path: the base path is taken over as it is
             ctx.ev(sig("join_encoded_base"))
             verify(ctx, "join_encoded_base", {"entry": "join_encoded_base", "base": bs, "segs": segs, "ref": tail}, guarded(lambda: b.join(ref)), rfc.remove_dot_segments(merged), True)
+    # join with a reference that CARRIES AN AUTHORITY and kept its dot segments (pre-encoded construction is the only way to hold one):
+    # a network-path reference, a complete URL of the base's scheme (with and without userinfo / port / query), built by URL.build too
+    if segs:
+        rp = "/" + lit(joined).lstrip("/")
+        for rlabel, mk in (("netpath", lambda: URL("//g" + rp, encoded=True)), ("same-scheme", lambda: URL("http://g" + rp, encoded=True)),
+                           ("same-scheme-full", lambda: URL("http://u:p@g:81" + rp + "?q=1#f", encoded=True)), ("built", lambda: URL.build(scheme="http", host="g", path=rp, encoded=True)),
+                           ("same-scheme-upper", lambda: URL("HTTP://g" + rp, encoded=True))):
+            ref = guarded(mk)
+            if is_exc(ref):
+                continue
+            for base in ("http://h/x/y", "http://h"):
+                ctx.ev(sig("join_authority_ref"))
+                verify(ctx, "join_authority_ref", {"entry": "join_authority_ref", "base": base, "segs": segs, "ref": str(ref), "ref_kind": rlabel},
+                       guarded(lambda: URL(base).join(ref)), rfc.remove_dot_segments(rp), True)
     # 11-12 join: rootless and rooted references (re-quoting: the reference is parsed by the constructor)
     for base, bpath in (("http://h/x/y", "/x/y"), ("http://h/x/y/", "/x/y/"), ("http://h", "")):
         if joined and not joined.startswith("/"):
